@@ -10,6 +10,11 @@
 //!       `<id> res=load kind=<LoadError variant> rendered=<enc>`
 //!       `<id> res=panic msg=<enc>`
 //!     tspans are in the order `ErrorContext::print` annotates them.
+//! `hx c14 spans`
+//!     case line: `<id> <enc text>`; runs `parse_ledger::<Tracking>` on the text and prints, for every entry delivered
+//!     before the end / the first error, the `ParsedContext` span and all `TrackedSpan`s of the entry in the order its
+//!     `{:?}` output shows them (a `Tracked { value, span }` prints the spans inside `value` before its own):
+//!       `<id> end=done|err:<line_start>:<a>..<b> entries=<s>..<t>:<a>..<b>,<a>..<b>|<s>..<t>:-|...`  (`entries=-` when none)
 //! The real binary / real file system goes through `hx c06 cli` (stderr is returned there).
 use std::io::{BufRead, Write};
 
@@ -161,6 +166,71 @@ fn tracked_in_print_order(kind: &str, dbg: &str) -> Vec<(usize, usize)> {
     }
 }
 
+/// all `TrackedSpan(a..b)` of a `{:?}` output, in order, skipping string literals (payees, comments, account names
+/// may contain any text, also the text `TrackedSpan(1..2)`)
+fn tracked_outside_strings(dbg: &str) -> Vec<(usize, usize)> {
+    let key = "TrackedSpan(";
+    let bytes = dbg.as_bytes();
+    let mut out = Vec::new();
+    let mut i = 0;
+    while i < bytes.len() {
+        if bytes[i] == b'"' {
+            match debug_str(dbg, i + 1) {
+                Some((_, j)) => i = j,
+                None => break,
+            }
+        } else if dbg[i..].starts_with(key) {
+            match range_at(dbg, i + key.len()) {
+                Some((a, b, e)) => {
+                    out.push((a, b));
+                    i = e;
+                }
+                None => i += key.len(),
+            }
+        } else {
+            i += 1;
+            while i < bytes.len() && !dbg.is_char_boundary(i) {
+                i += 1;
+            }
+        }
+    }
+    out
+}
+
+fn spans_of_text(text: &str) -> String {
+    use okane_core::{parse, syntax};
+    let opts = parse::ParseOptions::default();
+    let mut entries: Vec<String> = Vec::new();
+    let mut end = "done".to_string();
+    for r in parse::parse_ledger::<syntax::tracked::Tracking>(&opts, text) {
+        match r {
+            Ok((ctx, entry)) => {
+                let sdbg = format!("{:?}", ctx.span());
+                let pspan = span_after(&sdbg, "ParsedSpan(");
+                let spans = tracked_outside_strings(&format!("{:?}", entry));
+                let shown = if spans.is_empty() {
+                    "-".to_string()
+                } else {
+                    spans.iter().map(|(a, b)| format!("{}..{}", a, b)).collect::<Vec<_>>().join(",")
+                };
+                match pspan {
+                    Some((a, b)) => entries.push(format!("{}..{}:{}", a, b, shown)),
+                    None => entries.push(format!("?:{}", shown)),
+                }
+            }
+            Err(e) => {
+                let pdbg = format!("{:?}", e);
+                end = match parse_error_fields(&pdbg) {
+                    Some(((a, b), _, ls)) => format!("err:{}:{}..{}", ls, a, b),
+                    None => "err:?".to_string(),
+                };
+                break;
+            }
+        }
+    }
+    format!("end={} entries={}", end, if entries.is_empty() { "-".to_string() } else { entries.join("|") })
+}
+
 fn show_spans(v: &[(usize, usize)]) -> String {
     if v.is_empty() {
         "-".to_string()
@@ -220,14 +290,35 @@ fn one(files: &proc::Files, root: &str) -> String {
 }
 
 pub fn run(args: &[String], out: &mut dyn Write) -> i32 {
-    match args.first().map(|s| s.as_str()) {
-        Some("inproc") | None => {}
+    let spans_mode = match args.first().map(|s| s.as_str()) {
+        Some("inproc") | None => false,
+        Some("spans") => true,
         _ => {
-            eprintln!("usage: hx c14 inproc");
+            eprintln!("usage: hx c14 inproc|spans");
             return 2;
         }
-    }
+    };
     let stdin = std::io::stdin();
+    if spans_mode {
+        for line in stdin.lock().lines() {
+            let line = line.unwrap();
+            let ws: Vec<&str> = line.split(' ').filter(|w| !w.is_empty()).collect();
+            if ws.len() != 2 {
+                writeln!(out, "bad-case").unwrap();
+                continue;
+            }
+            let id = ws[0].to_string();
+            match sx::dec(ws[1]) {
+                None => writeln!(out, "{} bad-case", id).unwrap(),
+                Some(text) => match sx::catch(move || spans_of_text(&text)) {
+                    Ok(s) => writeln!(out, "{} {}", id, s).unwrap(),
+                    Err(msg) => writeln!(out, "{} res=panic msg={}", id, enc(&msg)).unwrap(),
+                },
+            }
+            out.flush().unwrap();
+        }
+        return 0;
+    }
     for line in stdin.lock().lines() {
         let line = line.unwrap();
         let ws: Vec<&str> = line.split(' ').filter(|w| !w.is_empty()).collect();
